@@ -196,14 +196,15 @@ func (s *Set) Complement(endSymbol rune) *Set {
 		pre = a.End + 1
 	}
 	a = a.Forward
+	covered := pre > endSymbol
 	for a.Forward != nil {
 		node := Node{
 			Backward: b,
 			Begin:    pre,
 			End:      a.Begin - 1,
 		}
-		if a.End == endSymbol {
-			pre = endSymbol
+		if a.End >= endSymbol {
+			covered = true
 		} else {
 			pre = a.End + 1
 		}
@@ -211,7 +212,7 @@ func (s *Set) Complement(endSymbol rune) *Set {
 		a = a.Forward
 		b = b.Forward
 	}
-	if pre < endSymbol {
+	if !covered {
 		node := Node{
 			Backward: b,
 			Begin:    pre,
@@ -219,6 +220,10 @@ func (s *Set) Complement(endSymbol rune) *Set {
 		}
 		b.Forward = &node
 		b = b.Forward
+	}
+	if b == &set.Head {
+		// Nothing is left: return a well-formed empty set.
+		return NewSet()
 	}
 	b.Forward = &set.Tail
 	set.Tail.Backward = b
